@@ -344,6 +344,12 @@ def exhaustive(tier: str):  # noqa: ANN201
                     for start, eps in ((1000.0, 2.0**-21), (2.0**20, 2.0**-11), (1000.0, 2.0**-12)):
                         for sign in (1, -1):
                             yield {"limit": limit, "period": 1.0, "pform": "float" if (n + i) % 2 else "timedelta", "gaps": [0, *gaps], "nudge": [sign * eps if j == i else 0.0 for j in range(n)], "clock_start": start}
+    # a float period that is not a whole number of microseconds (349525 / 2**20 = 0.33333...: exactly representable, so every instant of
+    # the history is exact): the window is as long as the caller said, not rounded to anything
+    for limit in (1, 2, 3):
+        for n in (2, 3, 4, 5):
+            for gaps in itertools.product((0, 1, 4), repeat=n - 1):
+                yield {"limit": limit, "period": 349525 / 2**20, "pform": "float", "gaps": [0, *gaps]}
     # unrelated timers falling due just (2**-31 s, below the clock resolution of the loop) before every quarter-period instant
     for limit in (1, 2):
         for n in (2, 3, 4):
